@@ -26,6 +26,7 @@
 // with m0 = m_queueMutex, m1 = m_poolMutex, c2 = m_condition (ids registered up front).
 #include <tulz/threading/ThreadPool.h>
 #include <tulz/threading/Thread.h>
+#include <sanitizer/lsan_interface.h>
 
 #include "../painted.h"
 
@@ -107,6 +108,24 @@ static void runOne(int maxThreads, const std::vector<std::string> &ops) {
             else if (op == "f") pool->start(Functor(id));
             else if (op == "l") { Functor fn(id); pool->start(fn); fn.id = -777; }
             else pool->start(FunctorArg(id), id * 7);
+        } else if (op == "S") {
+            // start() during which the system refuses to create the worker thread (std::thread's constructor throws): the owner
+            // catches the exception and carries on.  What the library leaks in that situation (the unstarted PooledThread) is not
+            // the subject of any property: leak detection is off for the duration of the call.
+            int id = next++;
+            ev("op start " + std::to_string(id));
+            g_submitted.insert(id);
+            ev("submit " + std::to_string(id));
+            { auto &S = verif::Sched::I(); std::unique_lock<decltype(S.G)> lk(S.G); S.failSpawns = 1; }
+            try {
+                __lsan_disable();
+                pool->start(new TrackedTask(id));
+                __lsan_enable();
+            } catch (const std::system_error &) {
+                __lsan_enable();
+                ev("startThrew");
+            }
+            { auto &S = verif::Sched::I(); std::unique_lock<decltype(S.G)> lk(S.G); S.failSpawns = 0; }
         } else if (op == "c") {
             ev("op clear");
             pool->clear();
